@@ -394,3 +394,482 @@ def numeric_inverse(rep, fnd, pid, tier):
         logging.disable(logging.NOTSET)
     rep.validated(n)
     rep.count("numeric_inverse_comparisons", n)
+
+
+# ------------------------------------------------------------------------------------------
+# options (C12)
+# ------------------------------------------------------------------------------------------
+def options_replay(rep, fnd, records, pid, tier):
+    """all (o_dim, ri_dim) pairs on real tensors: the subbands of the chosen layout are the default subbands
+    with the orientation / real-imag axes moved where TLC's RefLayout says; the inverse with the same pair accepts
+    that layout and reconstructs what the default inverse reconstructs"""
+    torch.set_default_dtype(torch.float64)
+    rng = np.random.default_rng(34000 + seed())
+    opts = [r for r in records if r.get("kind") == "dt2.opts"]
+    if len(opts) != 1:
+        rep.fail("expected one dt2.opts record, got %d" % len(opts))
+        return
+    pairs = opts[0]["pairs"]
+    rep.count("option_pairs", len(pairs))
+    shapes = [(1, 2, 8, 12), (2, 1, 7, 5)] if tier == "quick" else [(1, 2, 8, 12), (2, 1, 7, 5), (1, 1, 6, 6), (2, 3, 10, 9)]
+    n_ok = 0
+    for shp in shapes:
+        J = 2 if tier == "quick" else 3
+        x = torch.tensor(rng.standard_normal(shp))
+        fd = pw.DTCWTForward(J=J, biort="near_sym_b", qshift="qshift_b")
+        yl0, yh0 = fd(x)
+        x0 = pw.DTCWTInverse(biort="near_sym_b", qshift="qshift_b")((yl0, yh0))
+        for p in pairs:
+            od, rd, lay = p["o_dim"], p["ri_dim"], p["layout"]
+            cfg = dict(o_dim=od, ri_dim=rd, shape=list(shp), J=J)
+            case = {"api": "DTCWTForward/Inverse(o_dim, ri_dim)", "check": "options", "cfg": cfg}
+            rep.validated()
+            rep.nontriv(("opts", od, rd, shp))
+            try:
+                yl, yh = pw.DTCWTForward(J=J, biort="near_sym_b", qshift="qshift_b", o_dim=od, ri_dim=rd)(x)
+            except Exception as e:   # noqa
+                rep.violation("DTCWTForward(o_dim=%d, ri_dim=%d) raised %r" % (od, rd, e), dict(case, observed=repr(e)))
+                continue
+            # default layout is (N, C, O, H, W, RI); the spec's layout gives the position of each of those axes
+            perm_src = [None] * 6
+            for name, dflt in (("n", 0), ("c", 1), ("o", 2), ("h", 3), ("w", 4), ("ri", 5)):
+                perm_src[lay[name]] = dflt
+            ok = torch.equal(yl, yl0)
+            for a, b in zip(yh, yh0):
+                want = b.permute(*perm_src)
+                ok = ok and tuple(a.shape) == tuple(want.shape) and torch.equal(a, want)
+            if not ok:
+                rep.violation("DTCWTForward(o_dim=%d, ri_dim=%d): subbands are not the default subbands with the axes moved to "
+                              "O@%d, RI@%d (N,C,H,W in order elsewhere)" % (od, rd, lay["o"], lay["ri"]), case)
+                continue
+            try:
+                xr = pw.DTCWTInverse(biort="near_sym_b", qshift="qshift_b", o_dim=od, ri_dim=rd)((yl, yh))
+            except Exception as e:   # noqa
+                f = fnd.match(pid, "DTCWTInverse(o_dim, ri_dim)", cfg, "raises")
+                if f:
+                    rep.known_finding(f["id"], f["what"])
+                else:
+                    rep.violation("DTCWTInverse(o_dim=%d, ri_dim=%d) raised %r on the output of the forward transform with the same pair"
+                                  % (od, rd, e), dict(case, observed=repr(e)))
+                if (p["impl_h6"], p["impl_w6"]) == (lay["h"], lay["w"]):
+                    rep.drift.append("inverse raises for (%d,%d) but the table model is right there" % (od, rd))
+                continue
+            if tuple(xr.shape) != tuple(x0.shape) or float((xr - x0).abs().max()) > 1e-12 * float(x0.abs().max() + 1):
+                rep.violation("DTCWTInverse(o_dim=%d, ri_dim=%d) does not reconstruct what the default layout reconstructs "
+                              "(shape %s vs %s)" % (od, rd, tuple(xr.shape), tuple(x0.shape)), case)
+                continue
+            n_ok += 1
+    rep.count("option_pairs_ok", n_ok)
+    if pairs:
+        rep.sample({"o_dim": pairs[0]["o_dim"], "ri_dim": pairs[0]["ri_dim"], "layout_positions": pairs[0]["layout"]})
+
+
+def masks_and_prefixes(rep, fnd, pid, tier):
+    torch.set_default_dtype(torch.float64)
+    rng = np.random.default_rng(35000 + seed())
+    import itertools
+    n_ok = 0
+    shapes = [(1, 2, 9, 12), (2, 1, 16, 6)] if tier == "quick" else [(1, 2, 9, 12), (2, 1, 16, 6), (1, 1, 5, 7), (1, 3, 24, 20)]
+    for shp in shapes:
+        x = torch.tensor(rng.standard_normal(shp))
+        for (b, q) in [("near_sym_a", "qshift_a"), ("legall", "qshift_d")]:
+            for J in (1, 2, 3) if tier == "quick" else (1, 2, 3, 4):
+                yl, yh = pw.DTCWTForward(J=J, biort=b, qshift=q)(x)
+                # prefixes and requested intermediate lowpasses
+                lows_short = [pw.DTCWTForward(J=j, biort=b, qshift=q)(x) for j in range(1, J + 1)]
+                for j in range(1, J + 1):
+                    ylj, yhj = lows_short[j - 1]
+                    rep.validated()
+                    if not all(torch.equal(a, c) for a, c in zip(yh[:j], yhj)):
+                        rep.violation("the first %d levels of the %d-level DTCWT differ from the %d-level transform (%s,%s,%s)"
+                                      % (j, J, j, b, q, shp), {"api": "DTCWTForward", "check": "prefix", "cfg": dict(J=J, j=j, biort=b, qshift=q, shape=list(shp))})
+                for inc in itertools.product([False, True], repeat=J):
+                    if not any(inc):
+                        continue
+                    cfg = dict(J=J, include_scale=list(inc), biort=b, qshift=q, shape=list(shp))
+                    sc, yh2 = pw.DTCWTForward(J=J, biort=b, qshift=q, include_scale=list(inc))(x)
+                    rep.validated()
+                    rep.nontriv(("include", J, inc, shp, b))
+                    ok = len(sc) == J and all(torch.equal(a, c) for a, c in zip(yh2, yh))
+                    for j in range(J):
+                        if inc[j]:
+                            ok = ok and torch.equal(sc[j], lows_short[j][0])
+                        else:
+                            ok = ok and sc[j].numel() <= 1
+                    if not ok:
+                        rep.violation("include_scale=%s does not return exactly the lowpasses of the shorter transforms (and unchanged subbands) at %s"
+                                      % (list(inc), cfg), {"api": "DTCWTForward", "check": "include_scale", "cfg": cfg})
+                    else:
+                        n_ok += 1
+                for skip in itertools.product([False, True], repeat=J):
+                    cfg = dict(J=J, skip_hps=list(skip), biort=b, qshift=q, shape=list(shp))
+                    yl3, yh3 = pw.DTCWTForward(J=J, biort=b, qshift=q, skip_hps=list(skip))(x)
+                    rep.validated()
+                    rep.nontriv(("skip", J, skip, shp, b))
+                    ok = torch.equal(yl3, yl) and len(yh3) == J
+                    for j in range(J):
+                        if skip[j]:
+                            ok = ok and yh3[j].numel() <= 1
+                        else:
+                            ok = ok and torch.equal(yh3[j], yh[j])
+                    if not ok:
+                        rep.violation("skip_hps=%s changes the lowpass or a level that was not skipped, or does not empty the skipped ones, at %s"
+                                      % (list(skip), cfg), {"api": "DTCWTForward", "check": "skip_hps", "cfg": cfg})
+                    else:
+                        n_ok += 1
+    rep.count("mask_cases_ok", n_ok)
+
+
+# ------------------------------------------------------------------------------------------
+# perfect reconstruction (C04)
+# ------------------------------------------------------------------------------------------
+LEGALL_INT = dict(h0o=np.array([-1., 2, 6, 2, -1]), h1o=np.array([-1., 2, -1]),
+                  g0o=np.array([1., 2, 1]), g1o=np.array([-1., -2, 6, -2, -1]))       # S o A = 32 I per axis
+
+
+def lattice_set(m, off):
+    """the rational q-shift instance of spec/DTCWT1Laws.tla (65*h = (15,20,-48,36) at an even offset)"""
+    h0a = np.zeros(m)
+    h0a[off:off + 4] = [15, 20, -48, 36]
+    alt = np.array([(-1.0) ** i for i in range(m)])
+    t = dict(h0a=h0a, h0b=h0a[::-1].copy(), h1a=alt * h0a[::-1])
+    t["h1b"] = t["h1a"][::-1].copy()
+    t.update(g0a=t["h0a"][::-1].copy(), g0b=t["h0b"][::-1].copy(), g1a=t["h1a"][::-1].copy(), g1b=t["h1b"][::-1].copy())
+    return t
+
+
+def integer_pr(rep, fnd, pid, tier):
+    dwtlib.f64()
+    n_ok = 0
+    sizes = [(h, w) for h in range(2, 10) for w in range(2, 10)] + [(16, 5), (3, 12), (13, 13)]
+    if tier != "quick":
+        sizes = [(h, w) for h in range(2, 18) for w in range(2, 18)] + [(24, 5), (3, 20), (21, 23)]
+    k = 0
+    for (H, W) in sizes:
+        for J in (1, 2):
+            m = Q_LENGTHS[k % 4]
+            off = 2 * (k % ((m - 4) // 2 + 1))
+            k += 1
+            taps = dict(LEGALL_INT)
+            taps.update(lattice_set(m, off))
+            cfg = dict(H=H, W=W, J=J, qshift_length=m, lattice_offset=off)
+            case = {"api": "DTCWT round trip", "check": "integer_pr", "cfg": cfg}
+            rep.validated()
+            rep.nontriv(("dt_int_pr", H, W, J, m, off))
+            try:
+                X = torch.eye(H * W).reshape(H * W, 1, H, W)
+                yl, yh = fwd_module(taps, J)(X)
+                K2 = float(65 ** 4)
+                yh = [h * (K2 ** (J - 1 - j)) for j, h in enumerate(yh)]
+                xr = inv_module(taps)((yl, yh))
+            except Exception as e:   # noqa
+                rep.violation("DTCWT forward/inverse raised %r at %s" % (e, cfg), dict(case, observed=repr(e)))
+                continue
+            K = 1024.0 * K2 ** (J - 1)
+            E = dtasm.kron2(dtasm.rep_last(H), dtasm.rep_last(W))            # the image extended to even size
+            got = xr[:, 0].reshape(H * W, -1).numpy().T / K
+            okshape = tuple(xr.shape[-2:]) == (H + H % 2, W + W % 2)
+            err = np.abs(got - E).max() if okshape else np.inf
+            if err <= 1e-10:
+                n_ok += 1
+                if n_ok == 1:
+                    rep.sample({"round_trip": cfg, "observed": "Inverse(Forward(I)) / %g == [image extended to even size], max deviation %.2g" % (K, err)})
+            else:
+                rep.violation("DTCWTInverse(DTCWTForward(I)) is not the (even-extended) identity at %s: output %s, max deviation %.3g"
+                              % (cfg, tuple(xr.shape[-2:]), err), case)
+    rep.count("integer_instance_round_trips", n_ok)
+
+
+def numeric_pr(rep, fnd, pid, tier):
+    dwtlib.f64()
+    rng = np.random.default_rng(36000 + seed())
+    pairs = [(b, q) for b in BIORTS for q in QSHIFTS]
+    n = 0
+    for (b, q) in pairs:
+        for _ in range(2 if tier == "quick" else 8):
+            H, W = int(rng.integers(2, 45)), int(rng.integers(2, 45))
+            J = int(rng.integers(1, 5))
+            x = rng.standard_normal((2, 2, H, W)) * 10.0 ** rng.integers(-3, 4)
+            if rng.integers(0, 4) == 0:
+                x[:] = 0
+                x[..., 0, 0] = 1
+                x[..., -1, -1] = -3
+            cfg = dict(biort=b, qshift=q, H=H, W=W, J=J)
+            try:
+                yl, yh = pw.DTCWTForward(biort=b, qshift=q, J=J)(torch.tensor(x))
+                xr = pw.DTCWTInverse(biort=b, qshift=q)((yl, yh)).numpy()
+            except Exception as e:   # noqa
+                rep.violation("DTCWT round trip raised %r at %s" % (e, cfg), {"api": "DTCWT round trip", "check": "numeric_pr", "cfg": cfg})
+                continue
+            n += 1
+            rep.nontriv(("dt_num_pr", b, q, H, W, J))
+            want = x
+            if H % 2:
+                want = np.concatenate([want, want[..., -1:, :]], axis=-2)
+            if W % 2:
+                want = np.concatenate([want, want[..., -1:]], axis=-1)
+            tol = 1e-10 * max(np.abs(x).max(), 1e-300) * J
+            err = np.abs(xr - want).max() if xr.shape == want.shape else np.inf
+            if not err <= tol:
+                rep.violation("DTCWT(%s,%s) round trip error %.3g exceeds %.3g at %s (output %s; odd sizes must come back extended "
+                              "to even size with the image in the top-left corner)" % (b, q, err, tol, cfg, xr.shape[-2:]),
+                              {"api": "DTCWT round trip", "check": "numeric_pr", "cfg": cfg})
+    rep.validated(n)
+    rep.count("numeric_round_trips", n)
+
+
+# ------------------------------------------------------------------------------------------
+# back-propagation (C06)
+# ------------------------------------------------------------------------------------------
+def structured_int_set(rng, l0, l1, lq, B=3):
+    """integer taps satisfying the identities the hand-written gradients rely on (C18): symmetric level-1
+    filters; tree b = reverse(tree a); h1a[i] = (-1)^i h0a[m-1-i]; polarity premise"""
+    def sym(n):
+        half = dwtlib.int_taps(rng, (n + 1) // 2, B)
+        return np.concatenate([half, half[:n // 2][::-1]])
+    t = {"h0o": sym(l0), "h1o": sym(l1)}
+    while True:
+        a = dwtlib.int_taps(rng, lq, B)
+        if a @ a[::-1] > 0:
+            break
+    alt = np.array([(-1.0) ** i for i in range(lq)])
+    t.update(h0a=a, h0b=a[::-1].copy(), h1a=alt * a[::-1])
+    t["h1b"] = t["h1a"][::-1].copy()
+    # synthesis side (used when the INVERSE is differentiated): the same identities
+    t.update(g0o=sym(l1), g1o=sym(l0))
+    while True:
+        c = dwtlib.int_taps(rng, lq, B)
+        if c @ c[::-1] > 0:
+            break
+    t.update(g0a=c, g0b=c[::-1].copy(), g1a=alt * c[::-1])
+    t["g1b"] = t["g1a"][::-1].copy()
+    return t
+
+
+def layout_perms(od, rd):
+    """perm: default (N,C,O,H,W,RI) -> chosen layout; inv: back"""
+    rest = [d for d in range(6) if d not in (od % 6, rd % 6)]
+    perm = [None] * 6
+    perm[od % 6], perm[rd % 6] = 2, 5
+    for pos, src in zip(rest, (0, 1, 3, 4)):
+        perm[pos] = src
+    return perm, [perm.index(d) for d in range(6)]
+
+
+def _flat_outputs(yl, yh, od=2, rd=-1):
+    """all tensor outputs with the batch axis first (subbands brought back to the default layout)"""
+    _, inv = layout_perms(od, rd)
+    outs = []
+    for o in (yl if isinstance(yl, (list, tuple)) else [yl]):
+        if o.dim() > 1:
+            outs.append((o, 1.0))
+    for h in yh:
+        if h.dim() > 1:
+            outs.append((h.permute(*inv), SQ2))
+    return outs
+
+
+def forward_vjp(rep, fnd, pid, tier):
+    """DTCWTForward: VJP matrix vs transpose of the forward matrix of the same module (exact after the sqrt 2 scaling)"""
+    dwtlib.f64()
+    rng = np.random.default_rng(37000 + seed())
+    sizes = [(h, w) for h in range(2, 8) for w in range(2, 8)] + [(12, 5), (6, 13), (16, 4)]
+    if tier != "quick":
+        sizes = [(h, w) for h in range(2, 13) for w in range(2, 13)] + [(20, 5), (6, 21), (24, 4)]
+    opts = [dict(), dict(o_dim=1, ri_dim=2), dict(o_dim=-1, ri_dim=0), dict(o_dim=4, ri_dim=1), dict(o_dim=3, ri_dim=5)]
+    n_ok = 0
+    k = 0
+    for (H, W) in sizes:
+        for J in (1, 2, 3):
+            l0, l1 = L1_LENGTHS[k % 4]
+            lq = Q_LENGTHS[(k // 2) % 4]
+            kw = dict(opts[k % len(opts)])
+            if k % 3 == 1 and J > 1:
+                kw["skip_hps"] = [bool((k >> i) & 1) for i in range(J)]
+            if k % 4 == 2:
+                kw["include_scale"] = [bool((k >> (i + 1)) & 1) or i == J - 1 for i in range(J)]
+            k += 1
+            taps = structured_int_set(rng, l0, l1, lq)
+            cfg = dict(H=H, W=W, J=J, level1_lengths=[l0, l1], qshift_length=lq, options={a: b for a, b in kw.items()})
+            case = {"api": "DTCWTForward.backward", "check": "forward_vjp", "cfg": cfg, "taps": {a: b.tolist() for a, b in taps.items()}}
+            rep.validated()
+            rep.nontriv(("dt_fwd_vjp", H, W, J, l0, lq, str(kw)))
+            try:
+                m = fwd_module(taps, J, **kw)
+                X = torch.eye(H * W).reshape(H * W, 1, H, W)
+                od_, rd_ = kw.get("o_dim", 2), kw.get("ri_dim", -1)
+                outs = _flat_outputs(*m(X), od=od_, rd=rd_)
+                F = np.concatenate([o[:, 0].reshape(H * W, -1).numpy().T * s if o.shape[1] == 1 else
+                                    o.reshape(H * W, -1).numpy().T * s for o, s in outs], axis=0)
+                Kn = F.shape[0]
+                x = torch.zeros(Kn, 1, H, W, requires_grad=True)
+                outs2 = _flat_outputs(*m(x), od=od_, rd=rd_)
+                total = 0
+                off = 0
+                for o, s in outs2:
+                    n = int(np.prod(o.shape[1:]))
+                    cot = torch.zeros(Kn, n)
+                    cot[off:off + n] = torch.eye(n) * s
+                    total = total + (o.reshape(Kn, -1) * cot).sum()
+                    off += n
+                g, = torch.autograd.grad(total, x, allow_unused=True)
+            except Exception as e:   # noqa
+                rep.violation("DTCWTForward forward/backward raised %r at %s" % (e, cfg), dict(case, observed=repr(e)))
+                continue
+            if g is None:
+                rep.violation("DTCWTForward: the input requires grad but receives None at %s" % (cfg,), case)
+                continue
+            V = g[:, 0].reshape(Kn, -1).numpy().T
+            Fr, d1 = near_int(F)
+            Vr, d2 = near_int(V)
+            if d1 < 1e-6 and d2 < 1e-6 and dwtlib.eq_int(Vr, Fr.T):
+                n_ok += 1
+                if n_ok == 1:
+                    rep.sample({"api": "DTCWTForward.backward", "cfg": cfg, "observed": "VJP matrix == transpose of the forward matrix (exact integers after scaling complex planes by sqrt 2)"})
+            else:
+                d = dwtlib.diff_entries(Vr, Fr.T)
+                rep.violation("DTCWTForward back-propagation is not the transpose of its forward at %s: [index(pixel,output), observed, expected] %s"
+                              % (cfg, d), dict(case, diff=d))
+    rep.count("forward_vjp_exact_adjoint", n_ok)
+
+
+def inverse_vjp(rep, fnd, tab2_records, pid, tier):
+    """DTCWTInverse: for every subset of {lowpass, level 1..J} requiring grad, each receives its block of the transpose"""
+    import itertools
+    dwtlib.f64()
+    rng = np.random.default_rng(38000 + seed())
+    recs = [r for r in tab2_records if r.get("kind") == "dt2.fwd"]
+    opts = [dict(), dict(o_dim=1, ri_dim=2), dict(o_dim=4, ri_dim=0), dict(o_dim=-2, ri_dim=3)]
+    n_ok = 0
+    k = 0
+    for r in recs:
+        H, W, J = r["H"], r["W"], r["J"]
+        if H * W > 64 and tier == "quick":
+            continue
+        l0, l1 = L1_LENGTHS[k % 4]
+        lq = Q_LENGTHS[(k // 2) % 4]
+        kw = dict(opts[k % len(opts)])
+        k += 1
+        taps = structured_int_set(rng, l0, l1, lq)
+        trail = r["trail"]
+        m = inv_module(taps, **kw)
+        t = trail[-1]
+        od, rd = kw.get("o_dim", 2), kw.get("ri_dim", -1)
+        # leaves are built in the default layout (N, C, 6, h, w, 2) and permuted into the chosen one
+        rest = [d for d in range(6) if d not in (od % 6, rd % 6)]
+        perm = [None] * 6
+        perm[od % 6], perm[rd % 6] = 2, 5
+        for pos, src in zip(rest, (0, 1, 3, 4)):
+            perm[pos] = src
+        inv_perm = [perm.index(d) for d in range(6)]
+
+        def to_layout(t6):
+            return t6.permute(*perm).contiguous()
+
+        def to_default(t6):
+            return t6.permute(*inv_perm)
+        subsets = [s for n in range(1, J + 2) for s in itertools.combinations(range(J + 1), n)]
+        if tier == "quick" and len(subsets) > 5:
+            idx = rng.choice(len(subsets), 5, replace=False)
+            subsets = [subsets[i] for i in idx]
+        # forward matrix of the inverse on the whole pyramid basis (default ordering of coefficients inside each leaf = its own memory order)
+        leaves_n = [t["lo_r"] * t["lo_c"]] + [12 * tt["hi_r"] * tt["hi_c"] for tt in trail]
+        total = sum(leaves_n)
+        offs = np.cumsum([0] + leaves_n)
+        try:
+            yl = torch.zeros(total, 1, t["lo_r"], t["lo_c"])
+            yl[:leaves_n[0]] = torch.eye(leaves_n[0]).reshape(-1, 1, t["lo_r"], t["lo_c"])
+            yh = []
+            for j, tt in enumerate(trail):
+                h = torch.zeros(total, 1, 6, tt["hi_r"], tt["hi_c"], 2)
+                n = leaves_n[j + 1]
+                h[offs[j + 1]:offs[j + 2]] = torch.eye(n).reshape(n, 1, 6, tt["hi_r"], tt["hi_c"], 2)
+                yh.append(to_layout(h))
+            Y = m((yl, yh))
+            P = int(np.prod(Y.shape[1:]))
+            F = Y.reshape(total, P).numpy().T                       # [P x total]
+        except Exception as e:   # noqa
+            rep.violation("DTCWTInverse raised %r at H=%d W=%d J=%d %s" % (e, H, W, J, kw),
+                          {"api": "DTCWTInverse", "check": "inverse_vjp", "cfg": dict(H=H, W=W, J=J, options=kw)})
+            continue
+        for R in subsets:
+            cfg = dict(H=H, W=W, J=J, requires_grad=list(R), options=kw, level1_lengths=[l0, l1], qshift_length=lq)
+            case = {"api": "DTCWTInverse.backward", "check": "inverse_vjp", "cfg": cfg}
+            rep.validated()
+            rep.nontriv(("dt_inv_vjp", H, W, J, R, str(kw)))
+            yl = torch.zeros(P, 1, t["lo_r"], t["lo_c"], requires_grad=(0 in R))
+            yh = [to_layout(torch.zeros(P, 1, 6, tt["hi_r"], tt["hi_c"], 2)).requires_grad_((j + 1) in R)
+                  for j, tt in enumerate(trail)]
+            try:
+                y = m((yl, yh))
+                cot = torch.eye(P).reshape((P,) + tuple(y.shape[1:]))
+                leaves = [yl if q == 0 else yh[q - 1] for q in R]
+                grads = torch.autograd.grad(y, leaves, cot, allow_unused=True)
+            except Exception as e:   # noqa
+                rep.violation("DTCWTInverse backward raised %r at %s" % (e, cfg), dict(case, observed=repr(e)))
+                continue
+            missing = [q for q, g in zip(R, grads) if g is None]
+            if missing:
+                rep.violation("DTCWTInverse: leaves %s require grad but receive None (0 = lowpass, j = bandpass level j) at %s" % (missing, cfg), case)
+                continue
+            ok = True
+            for q, g in zip(R, grads):
+                gd = g if q == 0 else to_default(g)
+                V = gd.reshape(P, -1).numpy().T                    # [len_leaf x P]
+                want = F[:, offs[q]:offs[q + 1]].T
+                s = 1.0 if q == 0 else SQ2
+                a, d1 = near_int(V * s)
+                b, d2 = near_int(want * s)
+                if not (d1 < 1e-6 and d2 < 1e-6 and dwtlib.eq_int(a, b)):
+                    ok = False
+                    rep.violation("DTCWTInverse back-propagation to leaf %d is not the transpose of the forward at %s" % (q, cfg), dict(case, leaf=q))
+                    break
+            if ok:
+                n_ok += 1
+    rep.count("inverse_vjp_exact_adjoint", n_ok)
+
+
+def numeric_vjp(rep, fnd, pid, tier):
+    """named filter pairs: <T x, c> == <x, T^* c> with T^* from back-propagation (forward and inverse)"""
+    dwtlib.f64()
+    rng = np.random.default_rng(39000 + seed())
+    pairs = [(b, q) for b in BIORTS for q in QSHIFTS]
+    n = 0
+    for (b, q) in pairs:
+        for _ in range(1 if tier == "quick" else 4):
+            H, W = int(rng.integers(2, 33)), int(rng.integers(2, 33))
+            J = int(rng.integers(1, 4))
+            cfg = dict(biort=b, qshift=q, H=H, W=W, J=J)
+            x = torch.tensor(rng.standard_normal((2, 2, H, W)), requires_grad=True)
+            yl, yh = pw.DTCWTForward(biort=b, qshift=q, J=J)(x)
+            cl = torch.tensor(rng.standard_normal(tuple(yl.shape)))
+            ch = [torch.tensor(rng.standard_normal(tuple(h.shape))) for h in yh]
+            lhs = (yl * cl).sum() + sum((a * c).sum() for a, c in zip(yh, ch))
+            g, = torch.autograd.grad(lhs, x)
+            # the adjoint applied to (cl, ch) must reproduce <T dx, c> for random directions dx
+            dx = torch.tensor(rng.standard_normal((2, 2, H, W)))
+            yl2, yh2 = pw.DTCWTForward(biort=b, qshift=q, J=J)(dx)
+            want = float((yl2 * cl).sum() + sum((a * c).sum() for a, c in zip(yh2, ch)))
+            got = float((g * dx).sum())
+            n += 1
+            rep.nontriv(("dt_num_vjp", b, q, H, W, J))
+            if abs(got - want) > 1e-9 * (abs(want) + float(dx.abs().sum()) * 1e-3 + 1):
+                rep.violation("DTCWTForward(%s,%s) back-propagation is not the adjoint: <g,dx>=%.12g vs <T dx,c>=%.12g at %s"
+                              % (b, q, got, want, cfg), {"api": "DTCWTForward.backward", "check": "numeric_vjp", "cfg": cfg})
+            # inverse
+            pl = torch.tensor(rng.standard_normal(tuple(yl.shape)), requires_grad=True)
+            ph = [torch.tensor(rng.standard_normal(tuple(h.shape)), requires_grad=True) for h in yh]
+            inv = pw.DTCWTInverse(biort=b, qshift=q)
+            y = inv((pl, ph))
+            c = torch.tensor(rng.standard_normal(tuple(y.shape)))
+            grads = torch.autograd.grad((y * c).sum(), [pl] + ph)
+            dl = torch.tensor(rng.standard_normal(tuple(yl.shape)))
+            dh = [torch.tensor(rng.standard_normal(tuple(h.shape))) for h in yh]
+            want = float((inv((dl, dh)) * c).sum())
+            got = float((grads[0] * dl).sum() + sum((a * bb).sum() for a, bb in zip(grads[1:], dh)))
+            n += 1
+            if abs(got - want) > 1e-9 * (abs(want) + 1):
+                rep.violation("DTCWTInverse(%s,%s) back-propagation is not the adjoint: %.12g vs %.12g at %s" % (b, q, got, want, cfg),
+                              {"api": "DTCWTInverse.backward", "check": "numeric_vjp", "cfg": cfg})
+    rep.validated(n)
+    rep.count("numeric_adjoint_checks", n)
